@@ -53,3 +53,24 @@ Fixpoint after_death_scan (tr : list fstep) (dead : bool) : bool :=
 
 Definition c03_after_death_ok (cfg : vconfig) (tr : list fstep) : bool :=
   forallb (c03_ready_closed_ok cfg) tr && forallb (c03_no_hang_ok cfg) tr && after_death_scan tr false.
+
+(* ---- cancellation: the connection future is dropped without having returned (Drop for
+   VirtualSocket).  Afterwards only the application halves exist; an observation is
+   (event, result, the call woke itself). ---- *)
+Definition c03_post_drop_step_ok (x : fevent * fresult * bool) : bool :=
+  let '(e, r, sw) := x in
+  match e, r with
+  | FeWrite _, FrWrite (WrOk k) => k =? 0          (* nothing is accepted any more *)
+  | FeWrite _, FrWrite WrPending => sw              (* only the cooperative yield, which wakes itself *)
+  | FeFlush, FrUnit UrPending | FeShutdown, FrUnit UrPending => false
+  | FeRead n, FrReadPending => n <=? 0
+  | _, _ => true
+  end.
+
+Definition c03_post_drop_ok (l : list (fevent * fresult * bool)) : bool :=
+  forallb c03_post_drop_step_ok l.
+
+(* the drop itself wakes a parked reader and a parked writer *)
+Definition c03_drop_wakes_ok (pre : vfp) (woke_reader woke_writer : bool) : bool :=
+  (if f_rx_reader_waker pre && negb (f_rx_closed pre) then woke_reader else true) &&
+  (if f_tx_writer_waker pre && negb (f_tx_closed pre) then woke_writer else true).
